@@ -760,3 +760,144 @@ pub fn ser_groups(seq_base: u64, rng: &mut Rng, groups: usize) -> Vec<Vec<(u64, 
     }
     out
 }
+
+// ------------------------------------------------------------------ pipelines for servers whose outbound path backs up (c03_bp.rs)
+
+/// Kinds that echo the request's pad / payload, so that a large request yields a large response.
+const BIG_KINDS: [T; 11] = [T::Json, T::JCtx, T::Typed, T::TCtx, T::Jth, T::StEcho, T::RegFn, T::Erased, T::Erased, T::BJson, T::BTyped];
+
+/// One well-formed request whose response carries about `size` bytes.
+pub fn big_req(token: u64, size: usize, notify: u8, rng: &mut Rng) -> Req {
+    let t = *rng.pick(&BIG_KINDS);
+    let (bf, body, variant, expect): (u16, Vec<u8>, &'static str, Expect) = if t == T::Erased {
+        let bf = *rng.pick(&BF_ALL);
+        let op = *rng.pick(&[0u8, 1, 4]);
+        let mut body = token.to_le_bytes().to_vec();
+        body.push(op);
+        body.push(0);
+        body.extend(rng.bytes(size));
+        let e = match erased_spec(1, bf, &body) {
+            Some((ec, qf, rbf, q, b)) => exp(if ec == 0 { "ok" } else { "handler-error" }, t, vec![ec], true, ExpBody::Exact { qf, bf: rbf, query: q, body: b }),
+            None => exp("handler-error", t, vec![code_of(0) as u32], true, ExpBody::Open),
+        };
+        (bf, body, "large-payload", e)
+    } else {
+        let typed_formats = matches!(t, T::Typed | T::TCtx | T::BTyped | T::BTCtx);
+        const A: &[u8] = b"abcdefghijklmnopqrstuvwxyz0123456789 _-/~";
+        let start = rng.usize_below(A.len());
+        let pad: String = (0..size).map(|i| A[(start + i) % A.len()] as char).collect();
+        let r = Tin { t: token, op: if typed_formats { *rng.pick(&[0u8, 0, 3, 4, 5]) } else { 0 }, c: 0, pad };
+        let bf = if t == T::RegFn { 2 } else { *rng.pick(&[2u16, 2, 1]) };
+        (bf, enc(bf, &r), "large-pad", handler_outcome(t, &r, typed_formats))
+    };
+    Req { id: id_of(token), token, version: 1, notify, qf: 1, query: t.path().as_bytes().to_vec(), bf, body, target: Some(t), variant, expect, reflect: None }
+}
+
+/// A generated request of the wanted class (bounded retries; whatever came last otherwise).
+fn gen_req_where(token: u64, rng: &mut Rng, st: &mut GenStats, want: impl Fn(&Req) -> bool) -> Req {
+    let mut r = gen_req(token, rng, st);
+    for _ in 0..400 {
+        if want(&r) {
+            break;
+        }
+        r = gen_req(token, rng, st);
+    }
+    r
+}
+
+const REJECT_CLASSES: [&str; 5] = ["reject-version", "reject-query-format", "reject-query-utf8", "reject-unknown-path", "reject-multi"];
+
+/// A non-notify request that is rejected before dispatch, of the `k`-th reject class.
+pub fn rejected_req(token: u64, k: usize, rng: &mut Rng, st: &mut GenStats) -> Req {
+    let class = REJECT_CLASSES[k % REJECT_CLASSES.len()];
+    gen_req_where(token, rng, st, |r| !r.expect.dispatched && r.notify != 1 && r.expect.label.starts_with(class))
+}
+
+/// A non-notify request that is dispatched to a handler registered the plain way (answered on the connection's reader).
+pub fn inline_req(token: u64, rng: &mut Rng, st: &mut GenStats) -> Req {
+    gen_req_where(token, rng, st, |r| r.expect.dispatched && r.notify != 1 && r.target.map(|t| !t.blocking_variant()).unwrap_or(false))
+}
+
+/// One pipeline (<= 64 requests) for a server whose outbound queue is short: requests answered on the reader with small
+/// and large (10..400 KiB) responses, every class of rejected request, notifies and (the /b/ kinds; every kind on the
+/// off-reader servers) requests answered off the reader. Returns (style, requests).
+pub fn bp_seq(seq: u64, rng: &mut Rng, st: &mut GenStats) -> (&'static str, Vec<Req>) {
+    let mut tok = seq * 256;
+    let mut next = || {
+        tok += 1;
+        tok
+    };
+    let mut big_budget = 1_400_000usize;
+    let big = |rng: &mut Rng, token: u64, budget: &mut usize| -> Option<Req> {
+        let size = match rng.below(3) {
+            0 => 10_000 + rng.usize_below(30_000),
+            1 => 40_000 + rng.usize_below(110_000),
+            _ => 150_000 + rng.usize_below(250_000),
+        };
+        if size > *budget {
+            return None;
+        }
+        *budget -= size;
+        Some(big_req(token, size, if rng.chance(1, 10) { 1 } else { 0 }, rng))
+    };
+    let mut reqs = vec![];
+    let style = match rng.below(5) {
+        0 | 1 => {
+            // answered-on-the-reader / rejected alternating (every reject class in turn), notifies and others in between
+            let len = 3 + rng.usize_below(62);
+            let mut k = rng.usize_below(5);
+            while reqs.len() < len {
+                match rng.below(10) {
+                    0 => reqs.push(gen_req(next(), rng, st)),
+                    1 => {
+                        if let Some(r) = big(rng, next(), &mut big_budget) {
+                            reqs.push(r);
+                        }
+                    }
+                    _ => {
+                        reqs.push(inline_req(next(), rng, st));
+                        for _ in 0..1 + rng.usize_below(2) {
+                            reqs.push(rejected_req(next(), k, rng, st));
+                            k += 1;
+                        }
+                    }
+                }
+            }
+            reqs.truncate(64);
+            "alternating"
+        }
+        2 => {
+            // some large responses first, then a dense mix
+            for _ in 0..2 + rng.usize_below(5) {
+                if let Some(r) = big(rng, next(), &mut big_budget) {
+                    reqs.push(r);
+                }
+            }
+            let len = reqs.len() + 2 + rng.usize_below(40);
+            let mut k = rng.usize_below(5);
+            while reqs.len() < len {
+                if rng.chance(1, 3) {
+                    reqs.push(rejected_req(next(), k, rng, st));
+                    k += 1;
+                } else {
+                    reqs.push(gen_req(next(), rng, st));
+                }
+            }
+            "large-first"
+        }
+        s => {
+            let len = if s == 3 { 64 } else { 1 + rng.usize_below(64) };
+            while reqs.len() < len {
+                if rng.chance(1, 8) {
+                    if let Some(r) = big(rng, next(), &mut big_budget) {
+                        reqs.push(r);
+                        continue;
+                    }
+                }
+                reqs.push(gen_req(next(), rng, st));
+            }
+            "mixed"
+        }
+    };
+    (style, reqs)
+}
